@@ -61,8 +61,8 @@ def gen_demand(rng, allow_normal=False):
 	return kind, rng.choice([((0, 2, 5, 9), (0.25, 0.25, 0.25, 0.25)), ((1, 2, 3), (0.5, 0.25, 0.25)), ((0, 4), (0.75, 0.25))])
 
 
-def node_spec(policy, slt, h, p, initIL, ext=True, demand=True):
-	return {'slt': slt, 'olt': 0, 'policy': policy, 'cap': None, 'h': fr(h), 'p': fr(p) if p is not None else None, 'ht': None, 'rev': None,
+def node_spec(policy, slt, h, p, initIL, ext=True, demand=True, olt=0):
+	return {'slt': slt, 'olt': olt, 'policy': policy, 'cap': None, 'h': fr(h), 'p': fr(p) if p is not None else None, 'ht': None, 'rev': None,
 			'initIL': fr(initIL), 'initOrders': None, 'initShipments': None, 'ext_supply': ext, 'demand': ['0'] if demand else None, 'dis': None}
 
 
@@ -103,6 +103,8 @@ def bs_case(rep, drv, rng, th):
 	from stockpyl import newsvendor
 	kind, par = gen_demand(rng, allow_normal=True)
 	L = rng.choice([1, 1, 2, 3, 4])
+	olt = rng.choice([0, 0, 1, 2]) if L >= 2 else 0       # part of the lead time may be ORDER lead time: the stage's lead time is olt + slt
+	olt = min(olt, L - 1)
 	h = rng.choice([1, 2, 0.5, 0.25]); p = rng.choice([4, 10, 2.5, 0.75])      # dyadic: the exact regime
 	if kind == 'N':
 		mu, sd = par[0] * L, par[1] * math.sqrt(L)
@@ -115,9 +117,9 @@ def bs_case(rep, drv, rng, th):
 	S = max(0, round(S)) if kind != 'N' else round(S * 4) / 4
 	T = (12000 if th else 3000)
 	seed = rng.randrange(1, 10 ** 6)
-	case = {'kind': 'BS', 'demand': kind, 'par': par, 'L': L, 'h': h, 'p': p, 'S': S, 'T': T, 'seed': seed}
-	rep.case('single-stage-BS', case, nontrivial=True); rep.count('bs:demand=' + kind); rep.count('bs:L=%d' % L)
-	spec = {'kind': 'single', 'labels': [1], 'edges': [], 'T': T, 'nodes': {'1': node_spec({'t': 'BS', 'a': fr(S)}, L, h, p, S)}}
+	case = {'kind': 'BS', 'demand': kind, 'par': par, 'L': L, 'order_lead_time': olt, 'shipment_lead_time': L - olt, 'h': h, 'p': p, 'S': S, 'T': T, 'seed': seed}
+	rep.case('single-stage-BS', case, nontrivial=True); rep.count('bs:demand=' + kind); rep.count('bs:L=%d' % L); rep.count('bs:order-lead-time=%d' % olt)
+	spec = {'kind': 'single', 'labels': [1], 'edges': [], 'T': T, 'nodes': {'1': node_spec({'t': 'BS', 'a': fr(S)}, L - olt, h, p, S, olt=olt)}}
 	py, sink = simulate(spec, make_ds(kind, par), seed)
 	if 'error' in py:
 		rep.diff('single-stage-BS', 'simulator raised %s: %s' % (py['error'], py.get('msg')), case, py=py.get('tb'), oracle=True, theorem=THEOREM); return
@@ -256,14 +258,17 @@ def serial_case(rep, drv, rng, th):
 		if hloc[j] >= hloc[j - 1]:
 			hloc[j] = hloc[j - 1] / 2
 	hech = [hloc[j] - (hloc[j + 1] if j + 1 < N else 0) for j in range(N)]
-	Ls = [rng.choice([1, 1, 2]) for _ in range(N)]
+	Ls = [rng.choice([1, 1, 2, 3]) for _ in range(N)]
+	# only at the source stage (external supplier: an order delay is exactly extra lead time); an order delay between two stages
+	# changes where stock waits and is outside what the SSM covers
+	olts = [0] * (N - 1) + [min(rng.choice([0, 1, 2]), Ls[N - 1] - 1)]
 	p = rng.choice([10, 20, 37.5])
 	lam = rng.choice([2, 5])
 	ds = make_ds('P', lam)
 	kw = dict(num_nodes=N, echelon_holding_cost={j + 1: hech[j] for j in range(N)}, lead_time={j + 1: Ls[j] for j in range(N)}, stockout_cost=p, demand_source=ds)
 	T = 12000 if th else 4000
 	seed = rng.randrange(1, 10 ** 6)
-	case = {'kind': 'serial', 'N': N, 'h_local': hloc, 'L': Ls, 'p': p, 'lambda': lam, 'T': T, 'seed': seed}
+	case = {'kind': 'serial', 'N': N, 'h_local': hloc, 'L': Ls, 'order_lead_times': olts, 'p': p, 'lambda': lam, 'T': T, 'seed': seed}
 	try:
 		with warnings.catch_warnings():
 			warnings.simplefilter('ignore')
@@ -279,7 +284,8 @@ def serial_case(rep, drv, rng, th):
 	labels = list(range(1, N + 1))
 	spec = {'kind': 'serial', 'labels': labels, 'edges': [[j + 1, j] for j in range(1, N)], 'T': T, 'nodes': {}}
 	for j in labels:
-		spec['nodes'][str(j)] = node_spec({'t': 'BS', 'a': '0'}, Ls[j - 1], hloc[j - 1], p if j == 1 else None, 0, ext=(j == N), demand=(j == 1))
+		oj = olts[j - 1]
+		spec['nodes'][str(j)] = node_spec({'t': 'BS', 'a': '0'}, Ls[j - 1] - oj, hloc[j - 1], p if j == 1 else None, 0, ext=(j == N), demand=(j == 1), olt=oj)
 	net0, _ = simlib.build_py(spec)
 	Sloc = echelon_to_local_base_stock_levels(net0, Sech)
 	for j in labels:
